@@ -194,6 +194,9 @@ void probe(const char *name, uint64_t n = 1);
 
 // knob read by the /repo hook (exact-fit growth)
 void set_exact_fit(bool on);
+// from here on, exceeding the step budget ends the run as abandoned instead of reporting a hang (for inputs whose
+// legitimate cost is known to be astronomical: see has_long_exponent in worlds/common.hpp)
+void set_soft_budget(bool on);
 
 // ---------------------------------------------------------------------------------------------
 // Tasks
